@@ -117,6 +117,7 @@ Inductive Tiled (s : bytes) : nat -> list token -> Prop :=
 | T_snoc e toks g t : Tiled s e toks -> sp_run (skipn e s) g ->
     ty t <> ERROR -> tpos t = e + g -> val t = firstn (length (val t)) (skipn (e + g) s) ->
     e + g + length (val t) <= length s -> tline t = S (nl (firstn (e + g) s)) ->
+    (ty t = EOF -> e + g = length s) ->
     Tiled s (e + g + length (val t)) (toks ++ [t]).
 
 Record Inv (l : lx) (done : bytes) (e g : nat) : Prop := {
@@ -136,10 +137,10 @@ Lemma firstn_app_len {A} (a b : list A) : firstn (length a) (a ++ b) = a.
 Proof. induction a; cbn; [destruct b; reflexivity|]. f_equal. assumption. Qed.
 
 Lemma emit_inv t l done e g :
-  Inv l done e g -> t <> ERROR ->
+  Inv l done e g -> t <> ERROR -> (t = EOF -> pre l = [] /\ suf l = []) ->
   Inv (emit t l) (done ++ rev (pre l)) (pos l) 0.
 Proof.
-  intros [Hi Hs Hsl Hl Ht Hg Heg Hf] Hne. unfold emit, pos.
+  intros [Hi Hs Hsl Hl Ht Hg Heg Hf] Hne Heof. unfold emit, pos.
   constructor; cbn [inp pre suf start line sline width fl out rev app].
   - rewrite <- app_assoc. exact Hi.
   - rewrite app_length, rev_length. lia.
@@ -151,6 +152,7 @@ Proof.
     + rewrite <- Heg, Hi, <- Hs, skipn_app_len, rev_length, <- (rev_length (pre l)), firstn_app_len. reflexivity.
     + rewrite Hi, !app_length, rev_length. lia.
     + rewrite <- Heg, Hi, <- Hs, firstn_app_len. exact Hsl.
+    + intros Ee. destruct (Heof Ee) as [P S]. rewrite <- Heg, Hi, P, S, <- Hs. cbn. rewrite !app_length. cbn. lia.
   - apply sp0.
   - lia.
   - exact Hf.
@@ -299,54 +301,6 @@ Proof.
   - exists d, g'. rewrite Hp in D. cbn in D. repeat (split; [assumption|]). split; [eauto|assumption].
 Qed.
 
-(* ---- per-state preconditions ---- *)
-Definition Pre (s : st) (l : lx) : Prop :=
-  match s with
-  | SStart | SComment | STaskBody | STaskName | SArgs => pre l = []
-  | SHash => pre l = [] /\ has_prefix k_hash (suf l) = true
-  | STaskKeyword => pre l = [] /\ has_prefix k_task (suf l) = true
-  | _ => True
-  end.
-
-(* what a finished scan looks like *)
-Definition Final (l : lx) : Prop :=
-  fl l = FOk /\ exists t o, out l = t :: o /\
-   ((ty t = ERROR /\ exists e, Tiled (inp l) e (rev o)) \/
-    (ty t = EOF /\ tpos t = length (inp l) /\ exists e, Tiled (inp l) e (rev (out l)))).
-
-Definition StepOK (s' : st) (l' : lx) : Prop :=
-  match s' with
-  | SDone => Final l'
-  | _ => exists done e g, Inv l' done e g /\ Pre s' l'
-  end.
-
-Lemma lexStart_ok l done e g : Inv l done e g -> Pre SStart l ->
-  StepOK (fst (lexStart l)) (snd (lexStart l)).
-Proof.
-  intros HI HP. cbn in HP. unfold lexStart.
-  destruct (skipWhitespace_spec l done e g HI HP) as (d1 & g1 & I1 & P1 & O1 & _ & _).
-  set (l1 := skipWhitespace l) in *.
-  destruct (has_prefix k_hash (suf l1)) eqn:H1; [cbn [fst snd StepOK Pre]; exists d1, e, g1; auto|].
-  destruct (atTaskKeyword l1) eqn:H2.
-  { cbn [fst snd StepOK Pre]. exists d1, e, g1. unfold atTaskKeyword in H2. apply andb_true_iff in H2. destruct H2 as [H2 _]. auto. }
-  assert (L1 : line l1 >= 1) by (destruct I1; lia).
-  rewrite (peek_spec l1 L1). set (w := snd (decode (suf l1))). set (r := fst (decode (suf l1))).
-  pose proof (with_width_inv l1 w _ _ _ I1) as I2.
-  destruct (is_ident r) eqn:RI; [cbn [fst snd StepOK Pre]; exists d1, e, g1; auto|].
-  destruct (atEOF (with_width l1 w)) eqn:EOFc.
-  - (* emit EOF *)
-    cbn [fst snd StepOK]. unfold atEOF in EOFc. cbn [with_width suf] in EOFc.
-    destruct (suf l1) eqn:S1; [|discriminate].
-    pose proof (emit_inv EOF _ _ _ _ I2 ltac:(discriminate)) as I3.
-    split; [destruct I3; assumption|].
-    eexists _, _. split; [reflexivity|]. right. cbn [ty tpos mk_tok with_width start].
-    split; [reflexivity|]. split.
-    + cbn [emit inp with_width]. destruct I1 as [Hi Hs _ _ _ _ _ _]. rewrite Hi, P1, S1, <- Hs. cbn. rewrite app_nil_r. reflexivity.
-    + destruct I3. eexists. exact i_tiled0.
-  - cbn [fst snd StepOK]. exists d1, e, g1. split; [exact I2|exact I].
-Qed.
-Print Assumptions lexStart_ok.
-
 Lemma atEOL_spec l : line l >= 1 ->
   atEOL l = ((fst (decode (suf l)) =? 10)%N || has_prefix crlf (suf l), with_width l (snd (decode (suf l)))).
 Proof.
@@ -357,42 +311,3 @@ Qed.
 Lemma Inv_line l done e g : Inv l done e g -> line l >= 1.
 Proof. intros [_ _ _ H _ _ _ _]. lia. Qed.
 
-Lemma lexHash_ok l done e g : Inv l done e g -> Pre SHash l -> StepOK (fst (lexHash l)) (snd (lexHash l)).
-Proof.
-  intros HI [HP HH]. unfold lexHash. cbn [fst snd StepOK Pre].
-  destruct (absorb_inv 1 l done e g k_hash HI HH eq_refl eq_refl) as (I1 & P1 & S1 & O1).
-  pose proof (emit_inv HASH _ _ _ _ I1 ltac:(discriminate)) as I2.
-  eexists _, _, _. split; [exact I2|]. reflexivity.
-Qed.
-
-Lemma lexCommentLoop_ok fuel : forall l done e g, Inv l done e g -> length (suf l) < fuel ->
-  StepOK (fst (lexCommentLoop fuel l)) (snd (lexCommentLoop fuel l)).
-Proof.
-  induction fuel as [|fuel IH]; intros l done e g HI Hf; [lia|].
-  cbn [lexCommentLoop]. rewrite (atEOL_spec l (Inv_line _ _ _ _ HI)).
-  set (w := snd (decode (suf l))). pose proof (with_width_inv l w _ _ _ HI) as I1.
-  destruct (((fst (decode (suf l)) =? 10)%N || has_prefix crlf (suf l)) || atEOF (with_width l w)) eqn:C.
-  - cbn [fst snd StepOK Pre]. pose proof (emit_inv COMMENT _ _ _ _ I1 ltac:(discriminate)) as I2.
-    eexists _, _, _. split; [exact I2|reflexivity].
-  - apply orb_false_iff in C. destruct C as [_ C]. unfold atEOF in C. cbn [with_width suf] in C.
-    destruct (next_spec (with_width l w)) as (bs & N). pose proof (next_inv _ _ _ _ I1) as I2.
-    destruct (next (with_width l w)) as [r l2]. cbn [fst snd] in *. destruct N. cbn [with_width suf] in *.
-    apply (IH l2 done e g I2).
-    assert (W : width l2 > 0).
-    { pose proof (decode_spec (suf l)) as D. rewrite nr_dec0 in D. destruct D as (_ & _ & D0 & _).
-      destruct (width l2); [|lia]. destruct D0 as [D0 _]. rewrite (D0 eq_refl) in C. discriminate. }
-    assert (length (suf l) = length bs + length (suf l2)) by (rewrite nr_suf0, app_length; reflexivity). lia.
-Qed.
-
-Lemma lexComment_ok l done e g : Inv l done e g -> Pre SComment l -> StepOK (fst (lexComment l)) (snd (lexComment l)).
-Proof. intros HI _. unfold lexComment. eapply lexCommentLoop_ok; eauto. Qed.
-
-Lemma unexpected_ok l done e g : Inv l done e g -> StepOK (fst (unexpectedToken l)) (snd (unexpectedToken l)).
-Proof.
-  intros HI. unfold unexpectedToken. cbn [fst snd StepOK].
-  destruct (error_ok EUnexpected l _ _ _ HI) as (F & (t & o & Ho & Ht) & (t' & Ho')).
-  split; [exact F|]. exists t, o. split; [exact Ho|]. left. split; [exact Ht|].
-  rewrite Ho in Ho'. inversion Ho'; subst. destruct HI. exists e.
-  unfold error. cbn [inp]. assumption.
-Qed.
-Print Assumptions lexComment_ok.
